@@ -6,6 +6,7 @@ import (
 	"strings"
 
 	"github.com/ozontech/seq-db/parser"
+	"github.com/ozontech/seq-db/seq"
 
 	"verifharness/internal/vh"
 )
@@ -361,6 +362,7 @@ type E struct {
 	op    byte // 'a' single, 'i' in-list, 't' multi-word text, 'j' in-list of multi-word texts, '!', '&', '|'
 	atoms []int
 	items [][]int // 'j': the words of every item
+	sep   string  // 't': what stands between the words (default one space); any non-word bytes, also invalid UTF-8
 	l, r  *E
 }
 
@@ -420,7 +422,7 @@ func randE(r *vh.RNG, size, k int) *E {
 			return e
 		case 1:
 			n := 2 + r.Intn(2)
-			e := &E{op: 't'}
+			e := &E{op: 't', sep: []string{" ", " ", "  ", "-", ": ", "\xff", "\xc3", " \xe2\x82 ", "\xff\xfe", ", "}[r.Intn(10)]}
 			for i := 0; i < n; i++ {
 				e.atoms = append(e.atoms, r.Intn(k))
 			}
@@ -446,6 +448,7 @@ func fromT(t *T) *E {
 }
 
 type style struct {
+	wild      bool // atoms are written as patterns: `v<i>*` or a one-point range
 	legacy    bool
 	redundant int // chance (out of 8) of a redundant pair of parentheses around any sub-expression; 8 = always
 	fancy     bool
@@ -496,7 +499,23 @@ func (e *E) render(st style, r *vh.RNG, lvl int) string {
 			f = []string{"fk", "ft", "fp"}[r.Intn(3)]
 		}
 		v := fmt.Sprintf("v%d", e.atoms[0])
-		if r != nil && st.fancy {
+		pat := st.wild || (r != nil && st.fancy && r.Chance(1, 3))
+		if pat {
+			form := e.atoms[0] % 2
+			if r != nil {
+				form = r.Intn(3)
+			}
+			switch form {
+			case 0, 2:
+				v += "*"
+			default:
+				if st.legacy {
+					v = "[" + v + " TO " + v + "]"
+				} else {
+					v = "[" + v + ", " + v + "]"
+				}
+			}
+		} else if r != nil && st.fancy {
 			switch r.Intn(4) {
 			case 0:
 				v = `"` + v + `"`
@@ -551,7 +570,11 @@ func (e *E) render(st style, r *vh.RNG, lvl int) string {
 		for i, a := range e.atoms {
 			vals[i] = fmt.Sprintf("v%d", a)
 		}
-		s = `ft:"` + strings.Join(vals, " ") + `"`
+		sep := e.sep
+		if sep == "" {
+			sep = " "
+		}
+		s = `ft:"` + strings.Join(vals, sep) + `"`
 	case '!':
 		s = kw("not", st, r) + sp(st, r) + e.l.render(st, r, 2)
 	case '|':
@@ -599,6 +622,24 @@ func (c *ctx) caseTruth(which string, k int, want string, q string, _ string, ta
 	}
 	if got != want {
 		c.violate("parser:"+which, "meaning-changed", fmt.Sprintf("%q selects documents %s, the written expression denotes %s", q, got, want), replay)
+		return
+	}
+	// the same through the real processor.IndexSearch (its own leaf construction) on a fake fraction index, both orders
+	for _, order := range []seq.DocsOrder{seq.DocsOrderDesc, seq.DocsOrderAsc} {
+		var got2 string
+		p, site, msg = guarded(func() { got2, err = searchTable(root, k, order) })
+		if p {
+			c.violate(site, "panic", "IndexSearch panicked: "+msg, replay)
+			return
+		}
+		if err != nil {
+			c.violate("frac/processor/search.go:IndexSearch", "search-error", fmt.Sprintf("IndexSearch on the parsed query %q: %v", q, err), replay)
+			return
+		}
+		if got2 != want {
+			c.violate("frac/processor/search.go:IndexSearch", "meaning-changed", fmt.Sprintf("searching with %q (order %v) returns documents %s, the written expression denotes %s", q, order, got2, want), replay)
+			return
+		}
 	}
 }
 
@@ -615,6 +656,21 @@ func (c *ctx) runTruth(r *vh.RNG) {
 				}
 				c.caseTruth(which, 3, want, e.render(style{legacy: legacy}, nil, 0), "", "minimal")
 				c.caseTruth(which, 3, want, e.render(style{legacy: legacy, redundant: 8}, nil, 0), "", "full")
+				c.caseTruth(which, 3, want, e.render(style{legacy: legacy, wild: true}, nil, 0), "", "patterns")
+			}
+		}
+	}
+	// directed: phrases on a text field whose words are separated by all kinds of non-word bytes, also invalid UTF-8,
+	// also as the last bytes of the phrase (the words are still exactly the written words)
+	for _, sep := range []string{" ", "-", "\xff", "\xc3", "\xe2\x82", "\xff\xff\xff", " \xff", "\xff "} {
+		for _, atoms := range [][]int{{0, 1}, {0, 1, 2}, {2, 0}} {
+			e := &E{op: 't', atoms: atoms, sep: sep}
+			want := e.tree().table(3)
+			for _, which := range []string{"seqql", "legacy"} {
+				q := e.render(style{legacy: which == "legacy"}, nil, 0)
+				c.caseTruth(which, 3, want, q, "", "phrase")
+				c.caseTruth(which, 3, want, q[:len(q)-1]+sep+`"`, "", "phrase")
+				c.caseTruth(which, 3, want, `ft:"`+sep+q[4:], "", "phrase")
 			}
 		}
 	}
@@ -676,7 +732,7 @@ var hostileFields = []string{"fk", "ft", "fp", "fo", "fg", "fn", "fe", "fz", "fu
 var hostileValues = []string{"a", "abc", "a*", "*a", "*", "**", "a*b*c", `"a b"`, `'a b'`, "`a b`", `"a\"b"`, `'a\'b'`, `"a\\"`, `"\*"`, `"*"`, `'\x41'`,
 	`"é"`, `"\xff"`, "\xff", "\xc3", "", "ab", "[1, 5]", "(1, 5]", "[1 to 5)", "[a TO b]", "{a TO b}", "[* TO 5]", "[1, *]", "[*, *]", "[a, b, c]",
 	"in(a, b)", "in(a)", "in()", "in(a,)", "in(a b)", "IN('a', `b`, \"c*\")", "a-b", "a_b.c", "-", "--a", "a:b", "", " ", "\"", "'", "`", "\\", "\\*", "a\\ b", "a\\-b",
-	"http://x/y", "@gmail.com", "$", "a$", "(a)", "1e308", "é", "K", "İ", "日本", "a\tb", "a\nb", "`a\rb`", "`\r`", "'a\rb'", "# c\n a", "a # c", "a|b", "a,b"}
+	"http://x/y", "@gmail.com", "$", "a$", "(a)", "1e308", "é", "K", "İ", "日本", "\"ab\xffcdef gh\"", "\"\xff\"", "'a\xff'", "`\xc3`", "\"caf\xe9\"", "\"a \xe2\x82\"", "a\tb", "a\nb", "`a\rb`", "`\r`", "'a\rb'", "# c\n a", "a # c", "a|b", "a,b"}
 
 var hostileGlue = []string{" and ", " or ", " AND ", " OR ", " not ", " NOT ", " and not ", " ", "", " | ", " | fields ", " | fields except ", ", ", "(", ")", " ( ", " ) ",
 	" # comment\n", "\n", "\t", " | fields a, b", " | fields a | fields b", " | unknown", " |", "| fields", " and (", ") or "}
